@@ -789,6 +789,9 @@ structure Fn where
   fFunction : Bool
   cFunction : Bool
   genSuffix : Nat
+  /-- suffix used to look up the statements of the function RESULT: `result_suffix` of the C function when
+      set (a result returned unchanged: none; a context result inside a CFI function: buf), else `genSuffix` -/
+  resSuffix : Nat
   /-- `F_string_result_as_arg` set -/
   resAsArg : Bool
   rsgroup : Nat
@@ -826,12 +829,12 @@ def fPathArg (p : Param) (gen : Nat) : List Nat :=
 def fPathRes (fn : Fn) : List Nat :=
   if fn.kind = 3 then [2, 15, 44]
   else if ¬ fn.fFunction then (if fn.kind = 4 then [2, 15, 45] else [2, 20])
-  else [2, fn.rsgroup, fn.rspointer, 43, fn.genSuffix, fn.rderef, fn.rowner]
+  else [2, fn.rsgroup, fn.rspointer, 43, fn.resSuffix, fn.rderef, fn.rowner]
 
 def cPathRes (fn : Fn) : List Nat :=
   if fn.kind = 3 then [1, 15, 44]
   else if ¬ fn.fFunction then (if fn.kind = 4 then [1, 15, 45] else [1])
-  else [1, fn.rsgroup, fn.rspointer, 43, fn.genSuffix]
+  else [1, fn.rsgroup, fn.rspointer, 43, fn.resSuffix]
 
 /-- `build_arg_list_impl` for one buf_arg; `cv` is the Fortran name of `c_var` -/
 def bufActual (p : Param) (cv : Actual) (n : Nat) (b : Nat) : Actual :=
@@ -860,8 +863,8 @@ def paramActuals (rows : List Row) (fn : Fn) (p : Param) : List Actual :=
   else if p.isFArg fn ∧ p.implied = 1 then [.implied p.name]
   else if p.isFArg fn ∧ p.implied = 2 then [.local_ p.name]
   else
-    let fr := lookup rows (fPathArg p fn.genSuffix)
-    let cr := lookup rows (cPathArg p fn.genSuffix)
+    let fr := lookup rows (fPathArg p fn.resSuffix)
+    let cr := lookup rows (cPathArg p fn.resSuffix)
     -- a result passed as an extra argument is not in the API: its `f_var` is the result variable (name 0)
     let n := if p.isFArg fn then p.name else 0
     if ¬ (fr.clause 5).isEmpty then (fr.clause 5).map (argCCall n)
@@ -876,14 +879,14 @@ def Param.visible (fn : Fn) (p : Param) : Bool :=
 /-- the statement blocks one parameter looks up (none on the early `continue` branches) -/
 def paramMatched (rows : List Row) (fn : Fn) (p : Param) : List (List Nat × List Nat) :=
   if p.isFArg fn ∧ (p.ftrim ∨ p.assumedType ∨ p.funPtr ∨ p.implied ≠ 0) then []
-  else [(fPathArg p fn.genSuffix, (lookup rows (fPathArg p fn.genSuffix)).path),
-        (cPathArg p fn.genSuffix, (lookup rows (cPathArg p fn.genSuffix)).path)]
+  else [(fPathArg p fn.resSuffix, (lookup rows (fPathArg p fn.resSuffix)).path),
+        (cPathArg p fn.resSuffix, (lookup rows (cPathArg p fn.resSuffix)).path)]
 
 /-- the names an ordinary visible parameter adds to the Fortran argument list.  The emitter has
     a quirk here: when the argument's block has `arg_decl` and the RESULT block has `arg_name`,
     the result's names are appended instead of the argument's own name. -/
 def apiNames (rows : List Row) (fn : Fn) (p : Param) : List Nat :=
-  if (lookup rows (fPathArg p fn.genSuffix)).argDecl ∧ ¬ ((lookup rows (fPathRes fn)).clause 9).isEmpty then
+  if (lookup rows (fPathArg p fn.resSuffix)).argDecl ∧ ¬ ((lookup rows (fPathRes fn)).clause 9).isEmpty then
     ((lookup rows (fPathRes fn)).clause 9).map (fun _ => resultArgName)
   else [p.name]
 
